@@ -3,6 +3,7 @@
 Monitor: every Rectangle method named by the property is called on generated pairs (by relation
 class x coordinate family) and judged against exact rational geometry (fv/exact.py) with the
 gray-zone rule for decision predicates."""
+import os
 from fractions import Fraction as F
 
 from fv.exact import XR, tiling_report
@@ -17,10 +18,10 @@ ASSUMPTIONS = [
     "the class-wide tolerance is pinned per case to 1e-11*min(extent), the value a fresh process loading a die of that extent gets",
     "cut coordinates are >= 0 (a negative coordinate means 'halve' in the API)",
 ]
-CASES = {"quick": 40000, "thorough": 1500000}
-MIN_CASES = {"quick": 8000, "thorough": 200000}
-REQUIRED_CLASSES = ["disjoint", "edge_touch", "corner_touch", "nested", "crossing", "identical", "other_region", "near_miss"]
-REQUIRED_COUNTERS = ["moved_in_place_judged", "area_overlap_judged", "mul_judged", "is_inside_judged", "point_inside_judged", "touches_judged",
+CASES = {"quick": 24000, "thorough": 1000000}
+MIN_CASES = {"quick": 6000, "thorough": 200000}
+REQUIRED_CLASSES = ["in_situ", "disjoint", "edge_touch", "corner_touch", "nested", "crossing", "identical", "other_region", "near_miss"]
+REQUIRED_COUNTERS = ["in_situ_workloads_completed", "moved_in_place_judged", "area_overlap_judged", "mul_judged", "is_inside_judged", "point_inside_judged", "touches_judged",
                      "split_judged", "grid_judged", "cuttable_true_judged", "cuttable_false_judged", "overlap_judged"]
 
 RELS = ["disjoint", "edge_touch", "corner_touch", "nested", "crossing", "identical", "other_region", "near_miss", "random"]
@@ -32,7 +33,14 @@ _g = None
 def setup(ctx):
     global _g
     from frame.geometry import geometry
+    from fv import contracts
     _g = geometry
+    ctx.extra["in_situ_contract_mechanism"] = contracts.install()
+
+
+def finish(ctx):
+    from fv import contracts
+    contracts.report(ctx)
 
 
 def _span(rng, n, lo=1):
@@ -41,7 +49,71 @@ def _span(rng, n, lo=1):
     return i0, i0 + w
 
 
+def gen_in_situ(rng):
+    """a workload of the higher layers (die decomposition, die refinement, initial allocation, allocation refinement): the
+    Rectangle operations are judged by the in-situ contracts on whatever inputs those layers really produce"""
+    from fv.gen import dies as gd, netlists as gn
+    d = gd.gen_die(rng, max_n=6)
+    doc = gn.gen_compatible(rng, d, max_modules=5)
+    slim = {k: d[k] for k in ("fam", "W", "H", "regions", "fixed", "struct")}
+    return {"cls": "in_situ", "die": slim, "netlist": doc, "split": [rng.choice([1.5, 2, 3]), rng.choice([2, 4, 8])],
+            "ops": [rng.choice([["refine", rng.choice([0.5, 0.9, 1.0]), 1], ["griddify"], ["uniform"]]) for _ in range(rng.randint(1, 3))]}
+
+
+def check_in_situ(case, ctx):
+    from fv import contracts, dieutil, allocutil as au
+    from frame.allocation.allocation import create_initial_allocation
+    contracts.VIOLATIONS.clear()
+    ctx.nontrivial(True)
+    try:
+        d = dict(case["die"])
+        d["netlist"] = case["netlist"]
+        die, nl = dieutil.build_die(d, "tree")
+        if die.ground_regions or die.specialized_regions:
+            die.split_refinable_regions(*case["split"])
+            a = create_initial_allocation(die)
+            for op in case["ops"]:
+                if au.predicted_size(a, op) > 150:
+                    break
+                a = au.apply_op(a, op)
+        ctx.count("in_situ_workloads_completed")
+    except Exception:  # noqa  the higher layers are judged by their own properties; here only the contracts speak
+        ctx.count("in_situ_workloads_aborted")
+    contracts.drain(ctx, "in_situ")
+
+
+def check_repo_tests_under_contracts(case, ctx):
+    """thorough tier: the repository's own test-suite with the contracts switched on"""
+    import json
+    import os
+    import subprocess
+    import sys
+    from fv import core
+    out = os.path.join(os.environ.get("FV_SCRATCH", "/tmp"), "contracts_pytest.json")
+    env = dict(os.environ, FV_CONTRACT_OUT=out, PYTHONPATH=os.pathsep.join([core.repo_path(), core.VERIF, os.path.join(core.VERIF, ".deps")]))
+    p = subprocess.run([sys.executable, "-m", "pytest", "-q", "-p", "no:cacheprovider", "-p", "fv.pytest_contracts", "tests"], cwd=core.repo_path(), env=env,
+                       capture_output=True, text=True, timeout=1200)
+    ctx.nontrivial(True)
+    if not os.path.exists(out):
+        raise core.HarnessError("contracts plugin produced no report: " + p.stdout[-300:] + p.stderr[-300:])
+    rep = json.load(open(out))
+    os.remove(out)
+    ctx.count("repo_tests_run_under_contracts", rep["tests_collected"])
+    for k, v in rep["evaluations"].items():
+        ctx.count("repo_tests_contract_evaluations:" + k, v)
+    if rep["tests_failed"]:
+        raise core.HarnessError(f"{rep['tests_failed']} repository tests fail with the contracts on (a contract must never change behaviour): {p.stdout[-400:]}")
+    for v in rep["violations"]:
+        ctx.violation("in_situ_repo_tests:" + v["contract"], v["msg"])
+
+
+def directed():
+    return [{"cls": "repo_tests_under_contracts"}]
+
+
 def generate(rng, tier, i):
+    if i % 10 == 9:
+        return gen_in_situ(rng)
     fam = geo.pick_family(rng)
     nx, ny = rng.randint(3, 12), rng.randint(3, 12)
     ox = rng.choice([F(0), F(0), F(3), F(1, 10), F(25, 2)]) if fam != "float53" else F(0)
@@ -121,6 +193,20 @@ def close_xr(p: XR, q: XR, tl) -> bool:
 
 
 def check(case, ctx):
+    if case["cls"] == "in_situ":
+        return check_in_situ(case, ctx)
+    if case["cls"] == "repo_tests_under_contracts":
+        if ctx.tier == "thorough" or os.environ.get("FV_FORCE_REPO_TESTS"):
+            return check_repo_tests_under_contracts(case, ctx)
+        ctx.count("repo_tests_under_contracts_skipped_in_quick_tier")
+        return
+    from fv import contracts
+    contracts.VIOLATIONS.clear()
+    _check_pair(case, ctx)
+    contracts.drain(ctx, "in_situ")
+
+
+def _check_pair(case, ctx):
     g = _g
     ext = case["ext"]
     scale = max(ext)
